@@ -1031,4 +1031,169 @@ theorem parseUrl_render (p : UParts) (h : wf p = true)
     simp only [hhp, if_true, hoff, hdrop, digitsVal_port n _ (tail_nondigit p h hshape)]
     rw [if_neg (by omega)]
 
+/-! ## `uriSplit` on `render p` -/
+
+def pathOff (p : UParts) : Nat := off0 p + (server p).length
+
+theorem U3_fields (p : UParts) :
+    (U3 p).hasPath = !p.path.isEmpty ∧ (U3 p).path = (if p.path.isEmpty then {} else ⟨pathOff p, p.path.length⟩) ∧
+    (U3 p).hasQuery = p.query.isSome ∧ (∀ q, p.query = some q → (U3 p).query = ⟨pathOff p + p.path.length + 1, q.length⟩) ∧
+    (U3 p).hasFragment = p.fragment.isSome ∧
+    (∀ f, p.fragment = some f → (U3 p).fragment = ⟨pathOff p + p.path.length + segLen p.query + 1, f.length⟩) := by
+  unfold U3 U2 tailUrl putOpt pathOff off0
+  cases p.path <;> cases p.query <;> cases p.fragment <;> simp [Url.put]
+
+/-- what the host pass and the port conversion leave alone, and what they set -/
+theorem UH_wrap (p : UParts) :
+    (UH p).hasSchema = (U3 p).hasSchema ∧ (UH p).schema = (U3 p).schema ∧ (UH p).hasHost = (U3 p).hasHost ∧
+    (UH p).hasPath = (U3 p).hasPath ∧ (UH p).path = (U3 p).path ∧ (UH p).hasQuery = (U3 p).hasQuery ∧
+    (UH p).query = (U3 p).query ∧ (UH p).hasFragment = (U3 p).hasFragment ∧ (UH p).fragment = (U3 p).fragment ∧
+    (UH p).host = ⟨posA p + hostOpen p, p.host.text.length⟩ ∧
+    (UH p).hasUserinfo = (p.cred.isSome || (U3 p).hasUserinfo) ∧
+    (∀ c, p.cred = some c → (UH p).userinfo = ⟨off0 p, (credText c).length⟩) ∧
+    (UH p).port = (match p.port with | some n => n | none => (U3 p).port) := by
+  unfold UH setPort portPut hostPut credPut hostReset
+  generalize U3 p = u
+  cases p.cred <;> cases p.port <;> simp [Url.put]
+
+theorem UH_fields (p : UParts) :
+    (UH p).hasSchema = true ∧ (UH p).schema = ⟨0, p.scheme.length⟩ ∧
+    (UH p).hasHost = true ∧ (UH p).host = ⟨posA p + hostOpen p, p.host.text.length⟩ ∧
+    (UH p).hasUserinfo = p.cred.isSome ∧ (∀ c, p.cred = some c → (UH p).userinfo = ⟨off0 p, (credText c).length⟩) ∧
+    (UH p).port = p.port.getD 0 ∧
+    (UH p).hasPath = !p.path.isEmpty ∧ (UH p).path = (if p.path.isEmpty then {} else ⟨pathOff p, p.path.length⟩) ∧
+    (UH p).hasQuery = p.query.isSome ∧ (∀ q, p.query = some q → (UH p).query = ⟨pathOff p + p.path.length + 1, q.length⟩) ∧
+    (UH p).hasFragment = p.fragment.isSome ∧
+    (∀ f, p.fragment = some f → (UH p).fragment = ⟨pathOff p + p.path.length + segLen p.query + 1, f.length⟩) := by
+  have w := UH_wrap p
+  have f3 := U3_fields p
+  have fr := U3_frame p
+  refine ⟨by rw [w.1, fr.1], by rw [w.2.1, fr.2.2.2.2.2.1], by rw [w.2.2.1, fr.2.1], w.2.2.2.2.2.2.2.2.2.1, ?_,
+    w.2.2.2.2.2.2.2.2.2.2.2.1, ?_, by rw [w.2.2.2.1, f3.1], by rw [w.2.2.2.2.1, f3.2.1], by rw [w.2.2.2.2.2.1, f3.2.2.1], ?_,
+    by rw [w.2.2.2.2.2.2.2.1, f3.2.2.2.2.1], ?_⟩
+  · rw [w.2.2.2.2.2.2.2.2.2.2.1, fr.2.2.2.1]; simp
+  · rw [w.2.2.2.2.2.2.2.2.2.2.2.2, fr.2.2.2.2.2.2]; cases p.port <;> rfl
+  · intro q hq; rw [w.2.2.2.2.2.2.1]; exact f3.2.2.2.1 q hq
+  · intro f hf; rw [w.2.2.2.2.2.2.2.2.1]; exact f3.2.2.2.2.2 f hf
+
+def openB (p : UParts) : Bytes := match p.host with | .name _ => [] | .v6 _ => [91]
+def closeB (p : UParts) : Bytes := match p.host with | .name _ => [] | .v6 _ => [93]
+
+theorem host_render_eq (p : UParts) : p.host.render = openB p ++ (p.host.text ++ closeB p) := by
+  unfold openB closeB HostForm.render HostForm.text
+  cases p.host <;> simp
+
+theorem openB_length (p : UParts) : (openB p).length = hostOpen p := by
+  unfold openB hostOpen; cases p.host <;> rfl
+
+theorem sub_after (pre comp post : Bytes) (off len : Nat) (ho : off = pre.length) (hl : len = comp.length) :
+    sub (pre ++ (comp ++ post)) ⟨off, len⟩ = comp := by
+  subst ho hl
+  unfold sub
+  exact drop_take_mid pre comp post
+
+theorem sub_scheme (p : UParts) : sub (render p) ⟨0, p.scheme.length⟩ = p.scheme := by
+  rw [render_eq]
+  exact sub_after [] p.scheme _ 0 _ rfl rfl
+
+theorem sub_userinfo (p : UParts) (c : Bytes × Bytes) (hc : p.cred = some c) :
+    sub (render p) ⟨off0 p, (credText c).length⟩ = credText c := by
+  have : render p = (p.scheme ++ [58, 47, 47]) ++ (credText c ++ (64 :: (svPlain p ++ tailBytes p.path p.query p.fragment))) := by
+    rw [render_split]; unfold server; rw [hc]; simp
+  rw [this]
+  exact sub_after _ _ _ _ _ (by simp [off0]) rfl
+
+theorem sub_host (p : UParts) : sub (render p) ⟨posA p + hostOpen p, p.host.text.length⟩ = p.host.text := by
+  have : render p = ((p.scheme ++ [58, 47, 47]) ++ (credPart p ++ openB p)) ++
+      (p.host.text ++ (closeB p ++ (portSeg p ++ tailBytes p.path p.query p.fragment))) := by
+    rw [render_split, server_eq, host_render_eq]; simp
+  rw [this]
+  exact sub_after _ _ _ _ _ (by simp [posA, off0, openB_length]; omega) rfl
+
+theorem sub_path (p : UParts) : sub (render p) ⟨pathOff p, p.path.length⟩ = p.path := by
+  have : render p = ((p.scheme ++ [58, 47, 47]) ++ server p) ++ (p.path ++ (seg 63 p.query ++ seg 35 p.fragment)) := by
+    rw [render_split]; unfold tailBytes; simp
+  rw [this]
+  exact sub_after _ _ _ _ _ (by simp [pathOff, off0]; omega) rfl
+
+theorem sub_query (p : UParts) (q : Bytes) (hq : p.query = some q) :
+    sub (render p) ⟨pathOff p + p.path.length + 1, q.length⟩ = q := by
+  have : render p = (((p.scheme ++ [58, 47, 47]) ++ server p) ++ (p.path ++ [63])) ++ (q ++ seg 35 p.fragment) := by
+    rw [render_split]; unfold tailBytes; rw [hq]; simp [seg]
+  rw [this]
+  exact sub_after _ _ _ _ _ (by simp [pathOff, off0]; omega) rfl
+
+theorem sub_fragment (p : UParts) (f : Bytes) (hf : p.fragment = some f) :
+    sub (render p) ⟨pathOff p + p.path.length + segLen p.query + 1, f.length⟩ = f := by
+  have : render p = (((p.scheme ++ [58, 47, 47]) ++ server p) ++ (p.path ++ (seg 63 p.query ++ [35]))) ++ (f ++ []) := by
+    rw [render_split]; unfold tailBytes; rw [hf]; simp [seg]
+  rw [this]
+  exact sub_after _ _ _ _ _ (by simp [pathOff, off0, seg_length]; omega) rfl
+
+def partsOf (p : UParts) : Parts :=
+  { scheme := some p.scheme, user := p.cred.map (·.1), pass := p.cred.map (·.2), host := some p.host.text,
+    port := p.port.getD 0, path := if p.path.isEmpty then none else some p.path, query := p.query, fragment := p.fragment }
+
+theorem split_at_colon : ∀ (u k : Bytes), (∀ x ∈ u, (x != 58) = true) →
+    (u ++ 58 :: k).takeWhile (· != 58) = u ∧ ((u ++ 58 :: k).dropWhile (· != 58)).drop 1 = k ∧ (u ++ 58 :: k).contains 58 = true := by
+  intro u
+  induction u with
+  | nil => intro k _; simp [List.takeWhile, List.dropWhile]
+  | cons a as ih =>
+    intro k h
+    have ha : (a != 58) = true := h a (by simp)
+    have := ih k (fun x hx => h x (by simp [hx]))
+    simp only [List.cons_append, List.takeWhile_cons, ha, if_true, List.dropWhile_cons, List.contains_cons]
+    exact ⟨by rw [this.1], this.2.1, by rw [this.2.2]; simp⟩
+
+/-- **`uriSplit` inverts `render`** on every well-formed URI (shorter than 64 KiB, the fragment not
+directly after the authority) -/
+theorem uriSplit_render (p : UParts) (h : wf p = true)
+    (hshape : ¬ (p.path = [] ∧ p.query = none ∧ p.fragment ≠ none)) (hlen : (render p).length < 65536) :
+    uriSplit (render p) = .ok (partsOf p) := by
+  have f := UH_fields p
+  unfold uriSplit
+  rw [parseUrl_render p h hshape hlen]
+  simp only [f.1, f.2.1, f.2.2.1, f.2.2.2.1, f.2.2.2.2.1, f.2.2.2.2.2.2.1, f.2.2.2.2.2.2.2.1, f.2.2.2.2.2.2.2.2.1,
+    f.2.2.2.2.2.2.2.2.2.1, f.2.2.2.2.2.2.2.2.2.2.2.1, Bool.and_true, if_true, sub_scheme, sub_host]
+  -- the user-info
+  have hui : (if p.cred.isSome = true then
+        (if (sub (render p) (UH p).userinfo).contains 58 = true then
+          Except.ok (some ((sub (render p) (UH p).userinfo).takeWhile (· != 58)),
+            some (((sub (render p) (UH p).userinfo).dropWhile (· != 58)).drop 1))
+        else Except.error St.INVALID_FORMAT)
+      else Except.ok (none, none)) = (Except.ok (p.cred.map (·.1), p.cred.map (·.2)) : Except Nat (Option Bytes × Option Bytes)) := by
+    cases hc : p.cred with
+    | none => rfl
+    | some c =>
+      have h2 := (wf_parts p h).2.1
+      rw [hc] at h2
+      simp only [Bool.and_eq_true, List.all_eq_true] at h2
+      rw [f.2.2.2.2.2.1 c hc, sub_userinfo p c hc]
+      have := split_at_colon c.1 c.2 (fun x hx => by
+        have hx2 := (h2.1 x hx).2
+        simp only [bne_iff_ne, ne_eq] at hx2 ⊢
+        intro he; rw [he] at hx2; exact hx2 rfl)
+      unfold credText
+      simp only [Option.isSome_some, if_true, this.2.2, this.1, this.2.1, Option.map_some]
+  rw [hui]
+  simp only
+  -- the remaining components
+  unfold partsOf
+  congr 1
+  have hpath : (if (!p.path.isEmpty) = true then some (sub (render p) (if p.path.isEmpty = true then {} else ⟨pathOff p, p.path.length⟩)) else none)
+      = (if p.path.isEmpty then none else some p.path) := by
+    cases hp : p.path.isEmpty with
+    | true => rfl
+    | false => simp only [Bool.not_false, if_true, Bool.false_eq_true, if_false]; rw [sub_path]
+  have hquery : (if p.query.isSome = true then some (sub (render p) (UH p).query) else none) = p.query := by
+    cases hq : p.query with
+    | none => rfl
+    | some q => rw [f.2.2.2.2.2.2.2.2.2.2.1 q hq, sub_query p q hq]; rfl
+  have hfrag : (if p.fragment.isSome = true then some (sub (render p) (UH p).fragment) else none) = p.fragment := by
+    cases hf : p.fragment with
+    | none => rfl
+    | some fr => rw [f.2.2.2.2.2.2.2.2.2.2.2.2 fr hf, sub_fragment p fr hf]; rfl
+  rw [hpath, hquery, hfrag]
+
 end KsiVerif.Uri
